@@ -65,22 +65,38 @@ def gliGo : List Char → (i off lineNum lineStart : Nat) → List Char → Nat 
     else if c = '\n' then gliGo cs (i + c.utf8Size) off (ln + 1) (i + 1) cs
     else gliGo cs (i + c.utf8Size) off ln ls rest
 
-/-- `get_line_info`: 1-based line, 1-based column **in bytes**, and the text of that line. -/
+/-- Characters of a line (whose first byte is at `pos`) that start before byte offset `off`. -/
+def charsBefore : List Char → (pos off : Nat) → Nat
+  | [], _, _ => 0
+  | c :: cs, pos, off => if pos < off then 1 + charsBefore cs (pos + c.utf8Size) off else 0
+
+/-- Characters of a line (first byte at `pos`) that start inside the byte range `[a, b)`. -/
+def charsWithin : List Char → (pos a b : Nat) → Nat
+  | [], _, _, _ => 0
+  | c :: cs, pos, a, b => (if a ≤ pos ∧ pos < b then 1 else 0) + charsWithin cs (pos + c.utf8Size) a b
+
+/-- `get_line_info`: 1-based line, 1-based column **in characters** (since the `fix:` commit; it was a byte count
+before: `getLineInfoBytes`), and the text of that line. -/
 def getLineInfo (doc : List Char) (offset : Nat) : Nat × Nat × List Char :=
+  let off := min offset (utf8Len doc)
+  let (ln, ls, rest) := gliGo doc 0 off 1 0 doc
+  let line := rest.takeWhile (· ≠ '\n')
+  (ln, charsBefore line ls off + 1, line)
+
+/-- The column as it was computed before the fix: `offset - line_start + 1`. -/
+def getLineInfoBytes (doc : List Char) (offset : Nat) : Nat × Nat × List Char :=
   let off := min offset (utf8Len doc)
   let (ln, ls, rest) := gliGo doc 0 off 1 0 doc
   (ln, off - ls + 1, rest.takeWhile (· ≠ '\n'))
 
-/-- `format_error`: number of spaces before the caret and number of carets (`usize` saturating ops). -/
+/-- `format_error`: number of spaces before the caret and number of carets: one per character of the span that
+lies on the reported line. -/
 def caretLine (doc : List Char) (start stop : Nat) : Nat × Nat :=
-  let (_, colNum, lineText) := getLineInfo doc start
-  let textLen := utf8Len lineText
-  let underline :=
-    if stop > start ∧ colNum > 0 then
-      let startOffset := start - (colNum - 1)
-      let endInLine := stop - startOffset
-      max ((min endInLine textLen) - (colNum - 1)) 1
-    else 1
+  let off := min start (utf8Len doc)
+  let (_, ls, rest) := gliGo doc 0 off 1 0 doc
+  let line := rest.takeWhile (· ≠ '\n')
+  let colNum := charsBefore line ls off + 1
+  let underline := if stop > start then max (charsWithin line ls start stop) 1 else 1
   (colNum - 1, underline)
 
 end Incan.Pos
